@@ -405,8 +405,7 @@ def history_definite(model: Model, sw: "SharedWrite") -> bool:
             return True
         if base == "subscript-store:key" and store_is_rmw(model, sw.origin_func, sw.origin_line):
             return True
-        if base in ("method:append", "method:add", "method:setdefault", "method:update") and call_is_rmw(model, sw.origin_func, sw.origin_line):
-            return True
+        # (a table grown by  T.append(f(len(T)))  holds position-determined values: single-threaded that is a memo, not history)
     return False
 
 
@@ -496,6 +495,17 @@ def recognise_cache(model: Model, func: str, fld: str) -> CacheInfo:
     fi = model.funcs[func]
     fn = fi.node
     problems: List[str] = []
+    # local aliases of the field:  memo = self._memo
+    aliases = {t.id for n in ast.walk(fn) if isinstance(n, ast.Assign) and _is_self_field(n.value, fld) for t in n.targets if isinstance(t, ast.Name)}
+    if aliases:
+        # normalise: analyse a copy of the function in which the aliases are spelled self.<field>
+        class _Sub(ast.NodeTransformer):
+            def visit_Name(self, node):
+                if node.id in aliases and isinstance(node.ctx, ast.Load):
+                    return ast.copy_location(ast.Attribute(value=ast.Name(id="self", ctx=ast.Load()), attr=fld, ctx=ast.Load()), node)
+                return node
+        import copy as _copy
+        fn = ast.fix_missing_locations(_Sub().visit(_copy.deepcopy(fn)))
     stores = [n for n in ast.walk(fn) if isinstance(n, ast.Assign) and any(_is_slot(t, fld) for t in n.targets)]
     grows = [n for n in ast.walk(fn) if isinstance(n, ast.Call) and isinstance(n.func, ast.Attribute) and _is_self_field(n.func.value, fld)
              and n.func.attr in ("append", "extend", "insert", "pop", "clear", "remove", "update", "setdefault", "sort", "reverse")]
